@@ -38,6 +38,7 @@ def main():
     os.rmdir(wt)
     env = dict(os.environ)
     env.pop('VIVARIUM_CORE_VERIF', None)
+    env['PYTHONPATH'] = wt  # demonstrations import the library of the scratch worktree
     try:
         rc, out = sh('git -C /repo worktree add -q %s HEAD' % wt)
         assert rc == 0, out
